@@ -44,12 +44,17 @@ ASSUMPTIONS = [
     'randomised delays (stream pool_order), observed schedules replayed through the model',
     'real OS scheduling is sampled (nprocesses 1..8, random delays), not enumerated; the theorem covers every schedule of the model',
     'envelope_opts / extrema_opts are not exercised here (DESIGN 9-D5 belongs to C06)',
+    'mechanism-level (literal=False) kinds: gnim-flag-not-any, masksift-wrong-column-count, more-columns-than-cap (stop rule: C03), '
+    'mask-phases-not-the-documented-grid / mask-not-documented-waveform (observed through the module attribute emd.sift.get_next_imf; '
+    'an untraceable implementation is tagged, not judged), oracle:*, starmap-not-in-argument-order; time-outs are tagged, not judged',
 ]
 RULE = ('signals: tones/chirp/noise/walk/intermittent/dyadic/offset families, n in 16..256 (quick) / ..512 (thorough), 3 scales, plus 30% very short (6..12 samples, mixed continue flags) for get_next_imf_mask; '
         'get_next_imf_mask: z in (0, 0.5) incl. 0.25 and 0, amp incl. 0, nphases 1..8, imf_opts from 5 settings; '
         'mask_sift: frequency source zc / if / float / list, step factor 2, 3, 1.5, amplitude mode abs / ratio_sig / ratio_imf, '
-        'scalar and array amplitudes, cap 1..6, nphases 1..8; every case is run with nprocesses = 1 and further values in 2..8 '
-        '(all of 1..8 in the thorough tier) and compared bitwise. Malformed stream: nphases 0, short amplitude array, short '
+        'scalar and array amplitudes, cap 1..6, nphases 1..8 (15% forced to 1), 30% of the explicit lists contain a zero frequency '
+        '(constant mask, as in the docstring example); every case is run with nprocesses = 1 and further values in 2..8 '
+        '(all of 1..8 in the thorough tier), one call after the other WITH THE SAME ARGUMENT OBJECTS (signal, amplitude array, '
+        'frequency list), and compared bitwise; a later call that differs is judged by the documented rule as well. Malformed stream: nphases 0, short amplitude array, short '
         'frequency list, first frequency outside (0, 0.5). Non-trivial: nphases >= 2 and non-zero amplitude and >= 2 process counts.')
 
 SIZES_Q = [16, 32, 48, 64, 100, 128, 256]
@@ -64,6 +69,21 @@ def _nprocs(rng, tier):
 
 def _tol(x, extra=0.0):
     return _msk.TOL * max(1.0, _msk.max_abs(x) + extra)
+
+
+def _is_timeout(out):
+    return isinstance(out, ImplError) and 'imeout' in str(out.get('error'))
+
+
+def _guarded(holds):
+    """a crash of the instance check itself (harness bug, unexpected but legal output container) is never a property violation"""
+    def wrapped(self, case, out):
+        try:
+            return holds(self, case, out)
+        except Exception as ex:  # noqa
+            return [Failure('instance-check-crashed', repr(ex), literal=False)]
+    wrapped.__name__ = holds.__name__
+    return wrapped
 
 
 class _Cached(Stream):
@@ -134,7 +154,7 @@ class Gnim(_Cached):
                 _msk.jitter()
         with _msk.wrapped_public(emd.sift, 'get_next_imf', before), _msk.time_limit(60):
             for i, npr in enumerate(case['nprocs']):
-                arg = x if i % 2 == 0 else x[:, None]
+                arg = x                 # the documented "1D input array", the same for every run
                 imf, flag = emd.sift.get_next_imf_mask(arg, case['z'], case['amp'], nphases=case['nphases'],
                                                        nprocesses=npr, imf_opts=opts)
                 imf = np.asarray(imf)
@@ -167,10 +187,16 @@ class Gnim(_Cached):
         if isinstance(out, ImplError):
             if out['error'] == 'EMDSiftCovergeError':
                 return 'skip:an underlying extraction did not converge within max_iters (documented error, C04)'
-            if r.status == 'err' and r.words and r.words[0] == out['error']:
-                return None
+            if _is_timeout(out):
+                return 'skip:run time is not the property\'s subject'
+            if r.status == 'err':
+                return None       # both refuse the input: the property fixes no exception class
+            if case.get('malformed'):
+                return 'skip:input outside the quantifier: the implementation refuses it (%s), the model does not' % out['error']
             return 'implementation raised %s, model says %s' % (out['error'], r.raw[:100])
         if not r.ok:
+            if case.get('malformed') and r.status == 'err':
+                return 'skip:input outside the quantifier: the model refuses it, the implementation returns a result'
             return 'model: %s, implementation returned a result' % r.raw[:100]
         if out['shape'] != [len(x), 1]:
             return 'result shape %s' % out['shape']
@@ -181,12 +207,15 @@ class Gnim(_Cached):
             return 'masked IMF differs from the model by %.3g' % d
         return None
 
+    @_guarded
     def holds(self, case, out):
         if case.get('malformed'):
             return []
         if isinstance(out, ImplError):
             if out['error'] == 'EMDSiftCovergeError':
                 return []      # the documented non-convergence error of an underlying extraction: not a C07 matter (C04)
+            if _is_timeout(out):
+                return []      # run time is not the property's subject (tagged)
             return [Failure('raises:' + out['error'], out['msg'])]
         x, (imf, flag, rows) = self._spec(case)
         fs = []
@@ -198,14 +227,17 @@ class Gnim(_Cached):
                               % (np.max(np.abs(got - imf)) if got.shape == imf.shape else float('nan'),
                                  case['nphases'], case['z'], case['amp'])))
         if bool(out['flag']) != bool(flag):
-            fs.append(Failure('gnim-flag-not-any', 'flags %s, returned %s' % ([r[3] for r in rows], out['flag'])))
+            # the statement specifies the IMF only; how the phases' continue flags are combined is anchored mechanism
+            fs.append(Failure('gnim-flag-not-any', 'flags %s, returned %s' % ([r[3] for r in rows], out['flag']), literal=False))
         if case['amp'] == 0:
             base, bflag = _msk.extract(x, dict(_msk.IMF_OPTS[case['opts']]))
             # "reduces to unmasked extraction" holds to within rounding of the phase average: bit-exactness (even for a
             # power-of-two number of phases) depends on the summation order and is not demanded (harmless rewrite C07-2)
             dev = np.max(np.abs(got - base))
-            if dev > 1e-12 * max(1.0, _msk.max_abs(x)) or bool(out['flag']) != bflag:
+            if dev > 1e-12 * max(1.0, _msk.max_abs(x)):
                 fs.append(Failure('zero-amp-differs-from-unmasked', 'deviation %.3g, nphases=%d' % (dev, case['nphases'])))
+            elif bool(out['flag']) != bflag:
+                fs.append(Failure('zero-amp-flag-differs-from-unmasked', 'flag %s, unmasked %s' % (out['flag'], bflag), literal=False))
         if not all(out['same']):
             bad = [n for n, s in zip(case['nprocs'], out['same']) if not s]
             fs.append(Failure('nprocesses-changes-result', 'output differs bitwise from nprocesses=%d for nprocesses in %s'
@@ -218,6 +250,8 @@ class Gnim(_Cached):
              'delay' if case.get('delay') else 'no-delay']
         if isinstance(out, ImplError):
             t.append('error=' + out['error'])
+            if _is_timeout(out):
+                t.append('timeout-not-judged')
         else:
             t.append('flag=%d' % int(out['flag']))
             sp = self._spec(case)[1]
@@ -261,6 +295,17 @@ class MaskSift(_Cached):
             dict(base, cap=1),
             dict(base, thresh=1e6),                                # threshold stops after the first column
             dict(base, sig={'fam': 'offset', 'n': 64, 'seed': 2, 'scale': 1.0}, freqs='zc', cap=3),   # z = 0
+            # round-3 change C07/1 (a float64 amplitude array scaled in place by std(x) in 'ratio_sig' mode: the first call is
+            # right, every later call that is handed the same array uses amplitudes ratio*std^2, ratio*std^3, ...)
+            dict(base, amp=[0.5, 2.0, 1.25, 1.0], mode='ratio_sig', freqs=0.35, cap=3, nprocs=[1, 2, 3]),
+            dict(base, sig={'fam': 'chirp', 'n': 100, 'seed': 5, 'scale': 250.0}, amp=[1.0, 0.5, 0.25], mode='ratio_sig', freqs='zc',
+                 cap=3, nphases=2, nprocs=[1, 2]),
+            # round-3 change C07/2 (zero mask FREQUENCY treated like zero amplitude): a zero-frequency mask is the constant
+            # amp*cos(phase); with a single phase the masked IMF is extract(x + amp) - amp, not extract(x)
+            dict(base, freqs=[0.3, 0.0, 0.1], amp=0.75, mode='abs', nphases=1, cap=3, nprocs=[1, 2]),
+            dict(base, freqs=[0.0, 0.2], amp=[0.5, 1.0], mode='ratio_sig', nphases=1, cap=2, nprocs=[1, 2]),
+            dict(base, freqs=[0.4, 0.2, 0.0], amp=1.0, mode='ratio_imf', nphases=1, cap=3, nprocs=[1, 2]),
+            dict(base, freqs=[0.4, 0.0, 0.0], amp=2.0, mode='abs', nphases=3, cap=3, nprocs=[1, 4]),
             dict(base, amp=[1.0], freqs=0.3, cap=4, malformed=True),            # amplitude array too short
             dict(base, freqs=0.0, malformed=True),
             dict(base, freqs=-0.1, malformed=True),
@@ -284,6 +329,8 @@ class MaskSift(_Cached):
                 freqs = rng.uniform(0.05, 0.49)
             else:
                 freqs = sorted([rng.uniform(0.003, 0.49) for _ in range(rng.randint(1, 7))], reverse=True)
+                if rng.random() < 0.3:          # the docstring's example list ends in 0: a constant mask
+                    freqs[rng.randrange(len(freqs))] = 0.0
             mode = rng.choice(['abs', 'ratio_sig', 'ratio_imf', 'ratio_imf'])
             unit = sig['scale'] if mode == 'abs' else 1.0
             if rng.random() < 0.4:
@@ -293,7 +340,7 @@ class MaskSift(_Cached):
                 amp = rng.choice([0.0, 1.0, rng.uniform(0.1, 3.0)]) * unit
             case = {'sig': sig, 'amp': amp, 'mode': mode, 'freqs': freqs, 'step': rng.choice([2, 2, 3, 1.5, 2.5]),
                     'cap': cap, 'thresh': rng.choice([1e-8, 1e-8, 1e-8, sig['scale'] * sig['n'] * 0.05]),
-                    'nphases': rng.randint(1, 8), 'nprocs': _nprocs(rng, tier),
+                    'nphases': 1 if rng.random() < 0.15 else rng.randint(1, 8), 'nprocs': _nprocs(rng, tier),
                     'opts': rng.randrange(len(_msk.IMF_OPTS)), 'delay': rng.random() < 0.5}
             r = rng.random()
             if r < 0.03:
@@ -303,12 +350,17 @@ class MaskSift(_Cached):
             yield case
 
     # -- helpers
-    def _call(self, case, x, npr):
-        import emd
+    def _args(self, case):
+        """The argument OBJECTS of the call, created once per case: an analysis script that loops over nprocesses (or
+        repeats a sift) hands the same amplitude / frequency arrays to every call."""
         amp = np.array(case['amp'], dtype=float) if isinstance(case['amp'], list) else case['amp']
         freqs = case['freqs']
         if isinstance(freqs, list):
             freqs = np.array(freqs, dtype=float) if case['sig']['seed'] % 2 else list(freqs)
+        return amp, freqs
+
+    def _call(self, case, x, npr, amp, freqs):
+        import emd
         return emd.sift.mask_sift(x, mask_amp=amp, mask_amp_mode=case['mode'], mask_freqs=freqs,
                                   mask_step_factor=case['step'], ret_mask_freq=True, max_imfs=case['cap'],
                                   sift_thresh=case['thresh'], nphases=case['nphases'], nprocesses=npr,
@@ -320,22 +372,30 @@ class MaskSift(_Cached):
         z = None
         if case['freqs'] in ('zc', 'if'):
             z = float(emd.sift.get_mask_freqs(x[:, None], case['freqs'], imf_opts=dict(_msk.IMF_OPTS[case['opts']])))
-        ref, same = None, []
+        ref, same, later = None, [], None
+        amp, freqs = self._args(case)
 
         def before(a, k):
             if case.get('delay'):
                 _msk.jitter()
         with _msk.wrapped_public(emd.sift, 'get_next_imf', before), _msk.time_limit(120):
             for npr in case['nprocs']:
-                imf, mf = self._call(case, x, npr)
+                imf, mf = self._call(case, x, npr, amp, freqs)
                 imf = np.asarray(imf)
                 mf = np.asarray(mf, dtype=float)
                 if ref is None:
                     ref = (imf.copy(), mf.copy())
                 same.append(bool(imf.shape == ref[0].shape and _msk.sha(imf) == _msk.sha(ref[0])
                                  and _msk.sha(mf) == _msk.sha(ref[1])))
-        return {'cols': [_msk.vlist(ref[0][:, j]) for j in range(ref[0].shape[1])], 'n': int(ref[0].shape[0]),
-                'freqs': _msk.vlist(ref[1]), 'same': same, 'z': z}
+                if not same[-1] and later is None:
+                    # the first later call whose result differs: judged by the same rule as the first call
+                    later = {'nprocesses': npr, 'cols': [_msk.vlist(imf[:, j]) for j in range(imf.shape[1])] if imf.ndim == 2 else [],
+                             'freqs': _msk.vlist(mf)}
+        out = {'cols': [_msk.vlist(ref[0][:, j]) for j in range(ref[0].shape[1])], 'n': int(ref[0].shape[0]),
+               'freqs': _msk.vlist(ref[1]), 'same': same, 'z': z}
+        if later is not None:
+            out['later'] = later
+        return out
 
     def _resolved(self, case, out):
         """(source tag, z, freqs list, effective cap) by the documented rule."""
@@ -404,10 +464,16 @@ class MaskSift(_Cached):
         if isinstance(out, ImplError):
             if out['error'] == 'EMDSiftCovergeError':
                 return 'skip:an underlying extraction did not converge within max_iters (documented error, C04)'
-            if r.status == 'err' and r.words and r.words[0] == out['error']:
-                return None
+            if _is_timeout(out):
+                return 'skip:run time is not the property\'s subject'
+            if r.status == 'err':
+                return None       # both refuse the input: the property fixes no exception class
+            if case.get('malformed'):
+                return 'skip:input outside the quantifier: the implementation refuses it (%s), the model does not' % out['error']
             return 'implementation raised %s (%s), model says %s' % (out['error'], out['msg'][-120:], r.raw[:100])
         if not r.ok:
+            if case.get('malformed') and r.status == 'err':
+                return 'skip:input outside the quantifier: the model refuses it, the implementation returns a result'
             return 'model: %s, implementation returned %d columns' % (r.raw[:120], len(out['cols']))
         if float(r.args['margin']) < 1e-7 * max(1.0, case['thresh']):
             return 'skip:near-tie on the sift threshold'
@@ -425,30 +491,25 @@ class MaskSift(_Cached):
                 return 'column %d differs from the model' % j
         return None
 
-    def holds(self, case, out):
-        if case.get('malformed'):
-            return []
-        if isinstance(out, ImplError):
-            if out['error'] == 'EMDSiftCovergeError':
-                return []      # the documented non-convergence error of an underlying extraction: not a C07 matter (C04)
-            return [Failure('raises:' + out['error'], out['msg'])]
-        x, src, z, freqs, cap, sp = self._spec(case, out)
-        if z is not None and not np.isfinite(z):
-            return []
+    def _rule_failures(self, case, x, src, z, freqs, cap, sp, got_f, cols, which=''):
+        """the documented rule on ONE returned (IMFs, mask frequencies) pair"""
         fs = []
-        got_f = out['freqs']
+        # "the returned mask frequencies are the ones used": judged on the entries that belong to a returned column;
+        # further entries (the rest of the ladder / of the user's list) are not constrained by the statement
+        nused = min(len(cols), len(freqs))
         if src == 'list':
-            if got_f != freqs:
-                fs.append(Failure('returned-freqs-not-user-list', 'returned %s for list %s' % (got_f[:8], freqs[:8])))
+            if got_f[:nused] != freqs[:nused]:
+                fs.append(Failure('returned-freqs-not-user-list', '%sreturned %s for list %s (%d columns)' % (which, got_f[:8], freqs[:8], len(cols))))
         else:
-            if len(got_f) != len(freqs) or any(abs(a - b) > 1e-12 * max(1.0, abs(b)) for a, b in zip(got_f, freqs)):
-                fs.append(Failure('returned-freqs-not-ladder', 'returned %s, expected z/step^k = %s (z=%r step=%r)'
-                                  % (got_f[:6], freqs[:6], z, case['step'])))
-        cols = [np.array(c) for c in out['cols']]
+            if len(got_f) < nused or any(abs(a - b) > 1e-12 * max(1.0, abs(b)) for a, b in zip(got_f[:nused], freqs[:nused])):
+                fs.append(Failure('returned-freqs-not-ladder', '%sreturned %s, expected z/step^k = %s (z=%r step=%r, %d columns)'
+                                  % (which, got_f[:6], freqs[:6], z, case['step'], len(cols))))
+        # the stopping rule (cap, continue flags, sift threshold) is C03's subject, not in C07's words: mechanism level
         if len(cols) > max(cap, 1):
-            fs.append(Failure('more-columns-than-cap', '%d columns, cap %d (list length %s)' % (len(cols), cap, len(freqs))))
+            fs.append(Failure('more-columns-than-cap', '%s%d columns, cap %d (list length %s)' % (which, len(cols), cap, len(freqs)), literal=False))
         if sp['error'] is None and len(cols) != len(sp['cols']):
-            fs.append(Failure('masksift-wrong-column-count', 'rule gives %d columns, implementation %d' % (len(sp['cols']), len(cols))))
+            fs.append(Failure('masksift-wrong-column-count', '%srule gives %d columns, implementation %d' % (which, len(sp['cols']), len(cols)),
+                              literal=False))
         # peeling, with the implementation's own earlier columns and the frequencies it returned
         opts = dict(_msk.IMF_OPTS[case['opts']])
         for k, c in enumerate(cols):
@@ -461,18 +522,43 @@ class MaskSift(_Cached):
                 sd = float(np.std(x))
             else:
                 sd = float(np.std(cols[k - 1]))
+            if isinstance(case['amp'], list) and k >= len(case['amp']):
+                break
             a = case['amp'][k] if isinstance(case['amp'], list) else case['amp']
             want, _, _ = _msk.spec_gnim(resid, got_f[k], a * sd, case['nphases'], opts)
             dev = float(np.max(np.abs(want - c)))
             if dev > _tol(x, abs(a * sd)):
                 fs.append(Failure('column-not-masked-extraction-of-residual',
-                                  'column %d deviates %.3g from the masked extraction of x - sum(previous) with f=%r amp=%r (%s)'
-                                  % (k, dev, got_f[k], a * sd, case['mode'])))
+                                  '%scolumn %d deviates %.3g from the masked extraction of x - sum(previous) with f=%r amp=%r (%s, nphases=%d)'
+                                  % (which, k, dev, got_f[k], a * sd, case['mode'], case['nphases'])))
                 break
+        return fs
+
+    @_guarded
+    def holds(self, case, out):
+        if case.get('malformed'):
+            return []
+        if isinstance(out, ImplError):
+            if out['error'] == 'EMDSiftCovergeError':
+                return []      # the documented non-convergence error of an underlying extraction: not a C07 matter (C04)
+            if _is_timeout(out):
+                return []      # run time is not the property's subject (tagged)
+            return [Failure('raises:' + out['error'], out['msg'])]
+        x, src, z, freqs, cap, sp = self._spec(case, out)
+        if z is not None and not np.isfinite(z):
+            return []
+        fs = self._rule_failures(case, x, src, z, freqs, cap, sp, out['freqs'], [np.array(c) for c in out['cols']])
         if not all(out['same']):
             bad = [n for n, s in zip(case['nprocs'], out['same']) if not s]
-            fs.append(Failure('nprocesses-changes-result', 'output differs bitwise from nprocesses=%d for nprocesses in %s'
-                              % (case['nprocs'][0], bad)))
+            fs.append(Failure('nprocesses-changes-result', 'calls made one after the other with the same argument objects: output differs '
+                              'bitwise from the first call (nprocesses=%d) for nprocesses in %s' % (case['nprocs'][0], bad)))
+            lt = out.get('later')
+            if lt and not any(f.literal for f in fs if f.kind != 'nprocesses-changes-result'):
+                # which of the two results is wrong? the later call (same arguments) judged by the documented rule
+                seen = {f.kind for f in fs}
+                fs += [f for f in self._rule_failures(case, x, src, z, freqs, cap, sp, lt['freqs'], [np.array(c) for c in lt['cols']],
+                                                      which='the later call with nprocesses=%d and the same arguments: ' % lt['nprocesses'])
+                       if f.kind not in seen]
         return fs
 
     def tags(self, case, out):
@@ -480,8 +566,12 @@ class MaskSift(_Cached):
         t = ['src=' + ('list' if isinstance(f, list) else f if isinstance(f, str) else 'float'), 'mode=' + case['mode'],
              'amp=' + ('array' if isinstance(case['amp'], list) else 'scalar'), 'nphases=%d' % case['nphases'],
              'cap=%d' % case['cap'], 'step=%s' % case['step'], 'opts=%d' % case['opts'], 'nprocs=%d' % len(case['nprocs'])]
+        if isinstance(f, list) and 0.0 in f:
+            t.append('list-with-zero-frequency')
         if isinstance(out, ImplError):
             t.append('error=' + out['error'])
+            if _is_timeout(out):
+                t.append('timeout-not-judged')
         else:
             t.append('columns=%d' % len(out['cols']))
             if isinstance(f, list) and len(f) < case['cap']:
@@ -557,13 +647,15 @@ class PoolOrder(Stream):
             return 'model pool %s vs real pool %s under schedule order=%s workers=%s' % (r.raw[:100], out['res'], out['order'], out['workers'])
         return None
 
+    @_guarded
     def holds(self, case, out):
+        # validator of an ASSUMPTION about Python's multiprocessing (emd is not called): never a property violation
         if isinstance(out, ImplError):
-            if out['error'] == 'EMDSiftCovergeError':
-                return []      # the documented non-convergence error of an underlying extraction: not a C07 matter (C04)
-            return [Failure('raises:' + out['error'], out['msg'])]
+            if _is_timeout(out):
+                return []
+            return [Failure('raises:' + out['error'], out['msg'], literal=False)]
         if out['res'] != [a * a + 1 for a in out['args']]:
-            return [Failure('starmap-not-in-argument-order', '%s' % out)]
+            return [Failure('starmap-not-in-argument-order', '%s' % out, literal=False)]
         return []
 
     def tags(self, case, out):
@@ -608,7 +700,9 @@ class CosOracle(Stream):
         x = _msk.make_signal({'fam': 'tones', 'n': n, 'seed': case['seed'], 'scale': 1.0})
         with _msk.TraceDir() as td:
             def before(a, k):
-                td.log(np.ascontiguousarray(np.asarray(a[0], dtype=float).ravel()).tobytes())
+                first = a[0] if a else k.get('X')
+                if first is not None:
+                    td.log(np.ascontiguousarray(np.asarray(first, dtype=float).ravel()).tobytes())
             with _msk.wrapped_public(emd.sift, 'get_next_imf', before), _msk.time_limit(60):
                 try:
                     emd.sift.get_next_imf_mask(x, z, amp, nphases=p, nprocesses=min(p, 1 + case['seed'] % 3))
@@ -637,31 +731,42 @@ class CosOracle(Stream):
     def compare(self, case, out, results):
         return None
 
+    @_guarded
     def holds(self, case, out):
+        # Everything here is mechanism-level (literal=False): the cosine tables are the theorems' oracle, and the masks are
+        # OBSERVED by replacing the module attribute emd.sift.get_next_imf (positional first argument, per-pid trace files
+        # inherited by fork) - an implementation that binds the extractor at import time, calls it by keyword, uses a
+        # spawn pool or shares coinciding masks is not traceable this way and is not judged (tag 'untraceable'). The
+        # literal statement about the waveform is the phase-average check of the gnim stream.
         if isinstance(out, ImplError):
-            return [Failure('raises:' + out['error'], out.get('msg', ''))]
+            if _is_timeout(out):
+                return []
+            return [Failure('raises:' + out['error'], out.get('msg', ''), literal=False)]
         fs = []
 
         def oracle(kind, detail):
-            f = Failure(kind, detail)
-            f.literal = False          # a broken oracle means the theorems no longer apply to the deployed numpy
-            fs.append(f)
+            fs.append(Failure(kind, detail, literal=False))   # a broken oracle: the theorems no longer apply to the deployed numpy
         arg = 2 * np.pi * (0.5 * case['n'] + 1)
         eps = 4e-16 * arg + 1e-15
         if out['half'] > eps:
             oracle('oracle:cos-half-turn', 'max |cos(a + pi) + cos(a)| = %.3g on the table of z=%r p=%d' % (out['half'], case['z'], case['p']))
         if out['max_abs'] > 1.0 or out['at0'] != 1.0 or out['grid'] > eps:
             oracle('oracle:cos-table', 'max|cos|=%r cos(0)=%r grid deviation %.3g' % (out['max_abs'], out['at0'], out['grid']))
-        if out['njobs'] != case['p'] or out['phases_used'] != list(range(case['p'])):
+        if out['njobs'] != case['p']:
+            return fs           # untraceable (tagged): nothing observed, or not one observation per phase
+        if out['phases_used'] != list(range(case['p'])):
             fs.append(Failure('mask-phases-not-the-documented-grid', 'observed %d extraction jobs, nearest documented phases %s (nphases=%d)'
-                              % (out['njobs'], out['phases_used'], case['p'])))
+                              % (out['njobs'], out['phases_used'], case['p']), literal=False))
         elif out['mask_dev'] > _msk.TOL * max(1.0, abs(case['amp'])):
             fs.append(Failure('mask-not-documented-waveform', 'observed masks deviate %.3g from amp*cos(2 pi z t + 2 pi i/p), z=%r amp=%r p=%d'
-                              % (out['mask_dev'], case['z'], case['amp'], case['p'])))
+                              % (out['mask_dev'], case['z'], case['amp'], case['p']), literal=False))
         return fs
 
     def tags(self, case, out):
-        return ['nphases=%d' % case['p'], 'even' if case['p'] % 2 == 0 else 'odd', 'z=0.25' if case['z'] == 0.25 else 'z=other']
+        t = ['nphases=%d' % case['p'], 'even' if case['p'] % 2 == 0 else 'odd', 'z=0.25' if case['z'] == 0.25 else 'z=other']
+        if not isinstance(out, ImplError):
+            t.append('masks-observed' if out['njobs'] == case['p'] else 'untraceable')
+        return t
 
     def nontrivial(self, case, out):
         return not isinstance(out, ImplError) and case['p'] >= 2
